@@ -168,6 +168,12 @@ def from_native(x, *, inexact=False):
     lf = lift(x)
     if lf is not None:
         return Fl(x, lf, True)
+    # the float nearest to 1/n (n a small integer, e.g. the 1/N normalisation JAX's fft transposition rules
+    # compute in Python floats) stands for the ideal 1/n, like pi and sqrt(2) above
+    if 0 < abs(x) < 0.5:
+        n = round(1.0 / abs(x))
+        if 3 <= n <= 1 << 20 and (n & (n - 1)) and abs(x) == 1.0 / n:
+            return Fl(x, Fraction(1, n) if x > 0 else Fraction(-1, n), True)
     return Fl(x, Fraction(x), not inexact or float(x).is_integer() or _is_dyadic_small(x))
 
 
